@@ -9,8 +9,44 @@ from harness.core import TranslationError
 
 from . import c13_norm as N
 
+# a second module of the same code base: helpers imported from it are followed and read in ITS vocabulary
+OTHER = '''
+import numpy as np
+_KIND = np.ndarray
+_RANK = 2
+def _far_is_nd(value, *, cls_name):
+    """doc"""
+    if not isinstance(value, np.ndarray):
+        raise TypeError(f"{cls_name} no array")
+def _far_rank(value, *, cls_name, rank=_RANK):
+    if value.ndim != _RANK:
+        raise ValueError(f"{cls_name}: {rank}")
+def _far_text(*, cls_name, what):
+    return f"{cls_name} has no {what}"
+def _far_text_effect(*, cls_name, what):
+    what.clear()
+    return f"{cls_name} has no {what}"
+'''
+# ... and one that spells numpy differently: its helpers are not followed
+ODD = '''
+import numpy.ma as np
+def _odd_is_nd(value, *, cls_name):
+    if not isinstance(value, np.ndarray):
+        raise TypeError(f"{cls_name} no array")
+'''
+
 MODULE = '''
 import numpy as np
+from pkg.other import _far_is_nd, _far_rank, _far_text, _far_text_effect
+from pkg.odd import _odd_is_nd
+def _chk_nd(value, *, cls_name):
+    if not isinstance(value, np.ndarray):
+        raise TypeError(f"{cls_name} array should be a numpy.ndarray")
+def _chk_rank(value, *, cls_name, rank):
+    if value.ndim != rank:
+        raise ValueError(f"{cls_name}: expected {rank}")
+def _pick(*, first, second):
+    return first
 _DIMS = ("wavelength", "y", "x")
 _LIMIT: int = 3
 def _is_set(data):
@@ -84,6 +120,22 @@ SAME = [
         "if not isinstance(other, np.ndarray):\n    raise TypeError\nsuper().__init__(shape=(other.row, other.col))",
         "if not self._nd(other):\n    raise TypeError('no array')\nr, c = other.row, other.col\nsuper().__init__(shape=(r, c))",
     ]),
+    ("phases as module-level functions with keyword-only parameters (same module / imported from another module)", [
+        "if not isinstance(other, np.ndarray):\n    raise TypeError('a')\nif other.ndim != 2:\n    raise ValueError('b')\nself._array = other",
+        "name = self.__class__.__name__\n_chk_nd(other, cls_name=name)\n_chk_rank(other, cls_name=name, rank=2)\nself._array = other",
+        "name = self.__class__.__name__\n_chk_nd(other, cls_name=name)\n_chk_rank(other, rank=2, cls_name=name)\nself._array = other",
+        "_far_is_nd(other, cls_name=self.__class__.__name__)\n_far_rank(other, cls_name='K')\nself._array = other",
+    ]),
+    ("match with capture patterns (`case x:`, `case Cls() as x:`) == if/elif over the subject", [
+        "if self._array is None:\n    raise ValueError('empty')\nif isinstance(self._array, np.ndarray):\n    raise TypeError('2d')\nreturn self._array",
+        "match self._array:\n    case None:\n        m = self._msg()\n        raise ValueError(m)\n    case np.ndarray():\n        raise TypeError('2d')\n    case data:\n        return data",
+        "match self._array:\n    case None:\n        raise ValueError\n    case np.ndarray() as d2:\n        raise TypeError(f'{d2.shape}')\n    case _ as d3:\n        return d3",
+    ]),
+    ("walrus in the first operand of a test == assignment in front of it", [
+        "cur = self._array\nif cur is None:\n    raise ValueError()\nif isinstance(cur, np.ndarray):\n    raise TypeError()\nreturn cur",
+        "if (cur := self._array) is None:\n    raise ValueError('e')\nelif isinstance(cur, np.ndarray):\n    raise TypeError('t')\nreturn cur",
+        "if not ((cur := self._array) is not None):\n    raise ValueError\nif isinstance(cur, np.ndarray):\n    raise TypeError\nreturn cur",
+    ]),
     ("helper returning a value", [
         "if np.any(other < 0):\n    other = np.clip(other, 0, None)\n    warnings.warn('x')\nself._array = other.copy()",
         "other = _clip(other)\nself._array = other.copy()",
@@ -113,16 +165,64 @@ DIFFERENT = [
      "dt = other.dtype\nif not isinstance(other, np.ndarray):\n    raise TypeError()\nif dt not in self.TYPE_LIST:\n    raise ValueError()"),
     ("alias of object state read after unknown code ran in the same statement",
      "self.push(self.reset_all(), self._array)", "cur = self._array\nself.push(self.reset_all(), cur)"),
+    ("keyword arguments of a followed helper swapped",
+     "return _pick(first=self._n, second=self._m)", "return _pick(first=self._m, second=self._n)"),
+    ("phases called in another order",
+     "_chk_nd(other, cls_name='k')\n_chk_rank(other, cls_name='k', rank=2)\nself._array = other",
+     "_chk_rank(other, cls_name='k', rank=2)\n_chk_nd(other, cls_name='k')\nself._array = other"),
+    ("a phase checks something else than what it is handed",
+     "_chk_nd(other, cls_name='k')\n_chk_rank(other, cls_name='k', rank=2)\nself._array = other",
+     "_chk_nd(other, cls_name='k')\n_chk_rank(other, cls_name='k', rank=3)\nself._array = other"),
+    ("captured subject returned after the state it was read from changed",
+     "match self._array:\n    case None:\n        raise ValueError\n    case d:\n        self.reset()\n        return self._array",
+     "match self._array:\n    case None:\n        raise ValueError\n    case d:\n        self.reset()\n        return d"),
+    ("class pattern against another class",
+     "match self._array:\n    case np.ndarray() as d:\n        return d\n    case _:\n        raise TypeError",
+     "match self._array:\n    case xr.DataArray() as d:\n        return d\n    case _:\n        raise TypeError"),
+    ("helper imported from a module in which `np` is something else is not read as if it were numpy",
+     "_far_is_nd(other, cls_name='k')\nself._array = other", "_odd_is_nd(other, cls_name='k')\nself._array = other"),
+    ("walrus that is not evaluated first / not always",
+     "cur = self._array\nif other.flag and cur is None:\n    raise ValueError()\nreturn cur",
+     "if other.flag and (cur := self._array) is None:\n    raise ValueError()\nreturn cur"),
+    ("walrus-bound alias read after the state changed",
+     "if self._array is None:\n    raise ValueError()\nself.reset()\nreturn self._array",
+     "if (cur := self._array) is None:\n    raise ValueError()\nself.reset()\nreturn cur"),
     ("or is not and",
      "if self._a is None or other._a is None:\n    return 0\nreturn 1", "if self._a is None and other._a is None:\n    return 0\nreturn 1"),
 ]
+
+
+def _loader():
+    mods = {}
+    for name, src in (("pkg.other", OTHER), ("pkg.odd", ODD)):
+        mods[name] = ast.parse(src)
+        mods[name]._modname, mods[name]._is_pkg = name, False
+    return mods.get
+
+
+def message_only_checks() -> list[str]:
+    """an override that only builds text may delegate to a text-building helper in another module -- not to one with an effect"""
+    bad = []
+    mod = ast.parse(MODULE + "\n    def g(self):\n        return _far_text(cls_name=self.__class__.__name__, what='array')\n"
+                    "    def h(self):\n        return _far_text_effect(cls_name=self.__class__.__name__, what=self._log)\n"
+                    "    def i(self):\n        return self.describe()\n")
+    cls = [n for n in mod.body if isinstance(n, ast.ClassDef)][0]
+    fns = {n.name: n for n in cls.body if isinstance(n, ast.FunctionDef)}
+    if not N.is_message_only(fns["_msg"]) or not N.is_message_only(fns["g"], mod, [cls], _loader()):
+        bad.append("message-only helper (delegating to a text helper of another module) not recognised")
+    if N.is_message_only(fns["g"]):
+        bad.append("a call was taken for text without following it")
+    for nm in ("h", "i", "_acc"):
+        if N.is_message_only(fns[nm], mod, [cls], _loader()):
+            bad.append(f"{nm}: a helper with an effect / an unknown call was taken for message-only")
+    return bad
 
 
 def canon(body: str):
     mod = ast.parse(MODULE + "\n    def f(self, other):\n" + "\n".join("        " + l for l in body.splitlines()) + "\n")
     cls = [n for n in mod.body if isinstance(n, ast.ClassDef)][0]
     fn = [n for n in cls.body if isinstance(n, ast.FunctionDef) and n.name == "f"][0]
-    return ast.unparse(N.normalize(fn, mod, scopes=[cls]))
+    return ast.unparse(N.normalize(fn, mod, scopes=[cls], loader=_loader()))
 
 
 def run() -> list[str]:
@@ -145,7 +245,7 @@ def run() -> list[str]:
             continue
         if o == r:
             bad.append(f"{name}: a behaviour-changing look-alike got the canonical form of the original:\n{r}")
-    return bad
+    return bad + message_only_checks()
 
 
 if __name__ == "__main__":
